@@ -1589,9 +1589,8 @@ class FortranFile:
                         #  the value in hover
                         if new_var.is_parameter():
                             _, col = find_word_in_line(line, name)
-                            match = FRegex.PARAMETER_VAL.match(line[col:])
-                            if match:
-                                var = " ".join(match.group(1).strip().split())
+                            var = self.get_parameter_value(line, col)
+                            if var:
                                 new_var.set_parameter_val(var)
 
                         # Check if the "variable" is external and if so cycle
@@ -1875,6 +1874,57 @@ class FortranFile:
         elif match.group(2).isdigit():
             char_len = match.group(2)
         return match.group(1), f"*{char_len}"
+
+    @staticmethod
+    def get_parameter_value(line: str, col: int) -> str | None:
+        """Value of the named constant whose name starts at column ``col``
+
+        The value is the text that follows the ``=`` up to the next comma that
+        is not inside parentheses, an array constructor or a character literal,
+        e.g. ``kind(1.0d0)``, ``[1, 2, 3]``, ``'a, b'``
+
+        Parameters
+        ----------
+        line : str
+            statement, continuation lines joined
+        col : int
+            column at which the name of the constant starts
+
+        Returns
+        -------
+        str | None
+            value with single blanks between its parts, None if there is none
+        """
+        i, n_chars = col, len(line)
+        while i < n_chars and (line[i].isalnum() or line[i] in "_$"):
+            i += 1
+        depth, quote, start = 0, None, None
+        while i < n_chars:
+            char = line[i]
+            if quote is not None:
+                if char == quote:
+                    quote = None
+            elif char in "'\"":
+                quote = char
+            elif char == "!":
+                break
+            elif char in "([":
+                depth += 1
+            elif char in ")]":
+                depth -= 1
+                if depth < 0:
+                    break
+            elif depth == 0 and start is None:
+                if char == "=" and line[i + 1 : i + 2] not in ("=", ">"):
+                    start = i + 1
+                elif not char.isspace() and char != "&":
+                    return None
+            elif depth == 0 and char in ",;":
+                break
+            i += 1
+        if start is None:
+            return None
+        return " ".join(line[start:i].replace("&", " ").split())
 
     @staticmethod
     def override_char_len(selector: str, char_len: str) -> str:
